@@ -688,14 +688,20 @@ def run(prop, tier, seed, timeout_s, args, t_start):
                             r["result"] = "proof-broken"
                 else:
                     rec = finals[0]
-                    if last_replay is not None and last_replay[1] is rec:
-                        p = last_replay[0]
-                    else:
-                        p, _, _ = do_replay(prop, c, rec, rec["_script"], rec["_goal"], run=False)
+                    # the counter-models did not replay (inputs outside the witness builder's vocabulary): look for a
+                    # failing input of the same clause with the contract's generator before giving up
+                    found = do_search(prop, c, rec, tier, seed) if c.replay is not None else None
                     for r in recs:
                         if r["result"] == "cand":
                             r["result"] = "refuted"
-                    viol_lines.append((p, False, rec))
+                    if found is not None:
+                        viol_lines.append((found, True, rec))
+                    else:
+                        if last_replay is not None:
+                            p = last_replay[0]
+                        else:
+                            p, _, _ = do_replay(prop, c, rec, rec["_script"], rec["_goal"], run=False)
+                        viol_lines.append((p, False, rec))
         for r in recs:
             r.pop("_script", None)
             r.pop("_goal", None)
@@ -960,8 +966,10 @@ def do_search(prop, c, rec, tier, seed):
     if not ob.get("reproduced"):
         return None
     data = {"property": prop, "obligation": f"{rec['contract']} [{rec['cfg']}] :: {rec['name']}", "kind": rec["kind"],
-            "where": rec["where"], "model": ob.get("model"), "solver": "undecided by cvc5/z3 within the budget; failing "
-            "input found by witness search over the contract's input grammar", "reproduced": True,
+            "where": rec["where"], "model": ob.get("model"),
+            "solver": ("refuted by " + str(rec.get("backend")) + "; its counter-model did not replay, " if rec.get("result") in ("refuted", "cand")
+                       else "undecided by cvc5/z3 within the budget; ") +
+            "failing input found by witness search over the contract's input grammar", "reproduced": True,
             "observed": ob.get("observed"), "inputs": ob.get("inputs"), "tried": ob.get("tried"),
             "rerun": f"cd {HERE} && ./check {prop} --tier quick"}
     return write_replay(prop, data)
